@@ -124,6 +124,12 @@ def check_program(ctx, prog, res, mtrace, flat_tables, concat_tables):
             ctx.oracle_fail("%s%s changed object(s) %s (variables %s); only %s may change" % (
                 st["op"], "" if ok else " (which raised %s)" % st["error"], bad,
                 {k: st["changed_detail"].get(str(k)) for k in bad}, mch or "nothing"), rep)
+        # ---- operations that must succeed on any valid spectrum object: writing it to netCDF and reading it back,
+        # copying (an exception elsewhere - e.g. flatten of an object that an earlier step left without a time
+        # variable - is data: the operands must still be unchanged)
+        if not ok and st["op"] in ("save_load", "copy") \
+                and not str(st.get("error", "")).startswith(("NotImplementedError",)):
+            ctx.oracle_fail("%s raised %s on a valid spectrum object" % (st["op"], st.get("error")), rep)
         # ---- what is returned
         if ok:
             if st["returned"] == "new":
